@@ -57,12 +57,21 @@ func EnumerateNew(metatype *Type, args Tuple, kwargs StringDict) (Object, error)
 	return &Enumerate{Iterable: iter, Start: startIndex}, nil
 }
 
-// Enumerate iterator
+// An enumerate object is its own iterator (as in CPython): next() works on it
+// and the count carries on when it is iterated again
 func (e *Enumerate) M__iter__() (Object, error) {
-	return &EnumerateIterator{
-		Enumerate: *e,
-		Index:     e.Start,
-	}, nil
+	return e, nil
+}
+
+// Enumerate iterator next
+func (e *Enumerate) M__next__() (Object, error) {
+	value, err := Next(e.Iterable)
+	if err != nil {
+		return nil, err
+	}
+	res := Tuple{e.Start, value}
+	e.Start += 1
+	return res, nil
 }
 
 // EnumerateIterator iterator
@@ -84,5 +93,5 @@ func (ei *EnumerateIterator) M__next__() (Object, error) {
 }
 
 // Check interface is satisfied
-var _ I__iter__ = (*Enumerate)(nil)
+var _ I_iterator = (*Enumerate)(nil)
 var _ I_iterator = (*EnumerateIterator)(nil)
